@@ -5,17 +5,23 @@ From BX Require Import Base.Prelude Base.Sha256 Model.JsonAcct Model.Merkle Mode
 Local Open Scope N_scope.
 
 (** Refinement.  For EVERY operation sequence made of the proved operations (get/set balance and
-    nonce, GetCode, GetState, SetState incl. deletion, AddState, QueryByPrefix, Snapshot,
-    RevertToSnapshot with nested snapshots, Finalise, Clear, FlushDirtyData, Commit, RollbackState,
-    Version, cache evictions, reopen, getter dumps, raw dumps), run from the empty ledger on the
-    repaired model, every
+    nonce, AddBalance, SetCode / GetCode, GetState, SetState incl. deletion, AddState,
+    QueryByPrefix, Snapshot, RevertToSnapshot with nested snapshots, Finalise, Clear,
+    FlushDirtyData, Commit, RollbackState, Version, cache evictions, reopen, getter dumps, raw
+    dumps), run from the empty ledger on the repaired model, every
     observable agrees with the reference specification (finite maps + snapshot stack + committed
     history) for as long as the sequence stays inside the domain [wf_thm_b]: a commit follows its
     flush directly with the next height; a revert names no snapshot invalidated by AddState /
-    Clear / Flush / Rollback; evictions happen between transactions.  Values are compared modulo
-    nil = empty.  NOT covered by the theorem (tied by correspondence only): SetCode (histories with
-    contract code) and GetCommittedState. *)
-Theorem C13_read_refines : forall (e : env) (ops : list op),
+    Clear / Flush / Rollback; evictions happen between transactions; SetCode is called with a
+    non-nil code (SetCode(nil) is the open finding C13_setcode_nil_refuted).  Values are compared
+    modulo nil = empty.  Contract code is followed through the dirty object, the code cache, the
+    store, the journal's PrevCode and reopen; the two premises say that the code hash function
+    never returns the empty string and does not collide (with a collision the code cache, which is
+    only refreshed when the code hash of the record changes, would keep the old code).
+    NOT covered by the theorem (tied by correspondence only): GetCommittedState. *)
+Theorem C13_read_refines : forall (e : env),
+  (forall c, e_kec e c <> []) -> (forall c c', e_kec e c = e_kec e c' -> c = c') ->
+  forall ops : list op,
   forallb proved_op ops = true ->
   spec_agree_P wf_thm_b false e spec0 ops (snd (run e cfg_fixed st0 ops)).
 Proof. exact refine_from_empty. Qed.
@@ -23,6 +29,7 @@ Print Assumptions C13_read_refines.
 
 (** the same statement for the boolean predicate the judge evaluates on implementation traces *)
 Theorem C13_read_refines_bool : forall (e : env) (ops : list op),
+  (forall c, e_kec e c <> []) -> (forall c c', e_kec e c = e_kec e c' -> c = c') ->
   forallb proved_op ops = true ->
   fst (spec_agree_g wf_thm_b false e spec0 ops (snd (run e cfg_fixed st0 ops)) 0) = None.
 Proof. exact refine_bool. Qed.
